@@ -590,17 +590,32 @@ func vpC17_O6() {
 	vpAssert("candidate moduli are on the intended side of the first gate", (new(big.Int).Mod(c.N, big.NewInt(8)).Int64() == 5) == (c.gate || (mi >= 4 && mi <= 6)))
 	challenge := vpBigBits("challenge", 256)
 	var proof QuasiSafePrimeProductProof
-	got := quasiSafePrimeProductVerifyProof(c.N, challenge, proof)
-	if vpNative() {
-		// natively the empty proof is rejected by the real sub-verifiers: only rejection can be observed
-		vpAssert("quasi-safe-prime-product verdict is the conjunction of gates and sub-proofs", !got)
-		return
-	}
 	want := c.gate
+	verdicts := make([]bool, 4)
 	for i, fn := range []string{"squareFreeVerifyProof", "primePowerProductVerifyProof", "disjointPrimeProductVerifyProof", "almostSafePrimeProductVerifyProof"} {
-		want = want && vpBool(fmt.Sprintf("verdict_%s_N%s_idx%d", fn, c.N.String(), i))
+		verdicts[i] = vpBool(fmt.Sprintf("verdict_%s_N%s_idx%d", fn, c.N.String(), i))
+		want = want && verdicts[i]
 	}
+	if vpNative() {
+		// natively the four sub-verifiers are replaced, through the hook a source override puts around
+		// their calls, by the verdicts of the counterexample: the gates and the conjunction are the real code
+		vpForcedVerdicts = verdicts
+		defer func() { vpForcedVerdicts = nil }()
+	}
+	got := quasiSafePrimeProductVerifyProof(c.N, challenge, proof)
 	vpAssert("quasi-safe-prime-product verdict is the conjunction of gates and sub-proofs", got == want)
+}
+
+// vpForcedVerdicts / vpHookGennaro: see C17-O6. A source override (obligations.json) wraps the four
+// sub-verifier calls of quasiSafePrimeProductVerifyProof in this hook; unless verdicts are forced
+// (native replay of C17-O6 only) it just runs the call.
+var vpForcedVerdicts []bool
+
+func vpHookGennaro(idx int, call func() bool) bool {
+	if vpForcedVerdicts != nil {
+		return vpForcedVerdicts[idx]
+	}
+	return call()
 }
 
 func init() {
@@ -872,3 +887,146 @@ func vpC17_O10() {
 	}
 	vpAssert("a primality proof with an altered part fails the structure check", !ps.verifyProofStructure(challenge, proof))
 }
+
+func init() {
+	vpHarnesses["vpC17_O11"] = vpC17_O11
+}
+
+// vpPPPSpec: the specification of one round of the prime-power-product verifier: the square
+// of the response is the round's challenge value, its negative, its double or the negative of
+// its double, all modulo N.
+func vpPPPSpec(N, curc, r *big.Int) bool {
+	sq := new(big.Int).Mod(new(big.Int).Mul(r, r), N)
+	neg := new(big.Int).Mod(new(big.Int).Neg(curc), N)
+	dbl := new(big.Int).Mod(new(big.Int).Lsh(curc, 1), N)
+	ndbl := new(big.Int).Mod(new(big.Int).Neg(dbl), N)
+	return vpAny(sq.Cmp(curc) == 0, sq.Cmp(neg) == 0, sq.Cmp(dbl) == 0, sq.Cmp(ndbl) == 0)
+}
+
+// C17-O11: the prime-power-product verifier (Gennaro et al.) equals its specification
+// in exact arithmetic: for the moduli 9, 15, 21, 35, 45, 77, 105, 165 - a prime power,
+// products of two and of three primes -, every value the round challenges can take and all responses
+// in [0, N), it accepts exactly when every response squares to +-c or +-2c modulo N.
+// (Soundness of the proof for bad moduli rests on this relation: a verifier that
+// accepts more - say, fourth powers - lets N with three prime factors through.)
+// Natively the round challenges are real hash values: the harness looks, over the
+// small domain, for responses on which verifier and specification differ.
+func vpC17_O11() {
+	// (a symbolic modulus leaves the solvers with r*r mod N for two unknowns; the moduli are
+	// enumerated instead: a prime power, products of two primes, of three, with a square)
+	Nv := []int{9, 15, 21, 35, 45, 77, 105, 165}[vpChoose("pppN", 8)]
+	N := big.NewInt(int64(Nv))
+	challenge := vpBigBits("challenge", 256)
+	index := big.NewInt(int64(vpChoose("index", 4)))
+	rs := make([]*big.Int, primePowerProductIters)
+	for i := range rs {
+		rs[i] = vpBigRange(fmt.Sprintf("resp%d", i), big.NewInt(0), big.NewInt(254))
+		vpAssume(rs[i].Cmp(N) < 0)
+	}
+	curc := func(i int) *big.Int {
+		c := common.GetHashNumber(challenge, index, i, uint(N.BitLen()))
+		return c.Mod(c, N)
+	}
+	if vpNative() {
+		// realise the counterexample with the real hash: responses on which the two differ
+		for i := range rs {
+			for r := int64(0); r < int64(Nv); r++ {
+				one := PrimePowerProductProof{Responses: make([]*big.Int, primePowerProductIters)}
+				for j := range one.Responses {
+					one.Responses[j] = rs[j]
+				}
+				one.Responses[i] = big.NewInt(r)
+				// make the other rounds pass where possible so that round i decides
+				for j := range one.Responses {
+					if j == i {
+						continue
+					}
+					for q := int64(0); q < int64(Nv); q++ {
+						if vpPPPSpec(N, curc(j), big.NewInt(q)) {
+							one.Responses[j] = big.NewInt(q)
+							break
+						}
+					}
+				}
+				spec := true
+				for j := range one.Responses {
+					spec = spec && vpPPPSpec(N, curc(j), one.Responses[j])
+				}
+				if primePowerProductVerifyProof(N, challenge, index, one) != spec {
+					rs = one.Responses
+				}
+			}
+		}
+	}
+	spec := true
+	for i := range rs {
+		spec = vpAll(spec, vpPPPSpec(N, curc(i), rs[i]))
+	}
+	accepted := primePowerProductVerifyProof(N, challenge, index, PrimePowerProductProof{Responses: rs})
+	vpAssert("the prime-power-product verifier accepts exactly the responses whose squares are +-c or +-2c", accepted == spec)
+}
+
+func init() {
+	vpHarnesses["vpC17_O12"] = vpC17_O12
+}
+
+// C17-O12: degenerate commitments in the core of the key proof. A prover who knows no
+// factorisation of N sends, as the commitments to p and q, multiples of the group prime
+// (0 or P itself): every representation that has such a commitment on its left side, or
+// as a base with a non-zero response, evaluates to 0 modulo P whatever the responses are,
+// so the relations p = 2p'+1, q = 2q'+1 and N = pq say nothing, and the prover can hash
+// the zeros beforehand. The structure N is arbitrary (no relation to the committed
+// p', q'). The core, composed as VerifyProof composes it - including the checks VerifyProof
+// makes on the reconstructed list - must reject.
+func vpC17_O12() {
+	g := vpGroup()
+	pprime, qprime := vpBigBits("pprime", 64), vpBigBits("qprime", 64)
+	vpAssume(pprime.Sign() > 0 && qprime.Sign() > 0)
+	N := vpBigBits("badN", 120)
+	vpAssume(N.Sign() > 0)
+	s := NewValidKeyProofStructure(N, []*big.Int{big.NewInt(4)})
+	zero := big.NewInt(0)
+	if vpBool("groupPrimeItself") {
+		zero = new(big.Int).Set(g.P)
+	}
+	o := big.NewInt(0)
+	// prover: honest commitments to p', q'; zeros where the degenerate commitments make the verifier compute zeros
+	list, PprimeSecret := s.pprime.commitmentsFromSecrets(g, nil, pprime)
+	list, QprimeSecret := s.qprime.commitmentsFromSecrets(g, list, qprime)
+	list = append(list, zero, o, zero, o, g.P, s.n, o, o, o)
+	challenge := common.HashCommit(list, false)
+	vpAssume(challenge.Sign() != 0)
+	pPp, pQp := s.pprime.buildProof(g, challenge, PprimeSecret), s.qprime.buildProof(g, challenge, QprimeSecret)
+	// (the responses can be anything that is not zero; one arbitrary value for all of them)
+	r1 := vpBigBits("r1", 200)
+	vpAssume(r1.Sign() > 0)
+	r2, r3, r4, r5 := r1, r1, r1, r1
+	pP := PedersenProof{Commit: zero, Sresult: Proof{Result: r1}, Hresult: Proof{Result: r2}}
+	pQ := PedersenProof{Commit: zero, Sresult: Proof{Result: r3}, Hresult: Proof{Result: r4}}
+	proofPQN := Proof{Result: r5}
+
+	// verifier (as in VerifyProof)
+	structureOK := s.p.verifyProofStructure(pP) && s.q.verifyProofStructure(pQ) && s.pprime.verifyProofStructure(pPp) && s.qprime.verifyProofStructure(pQp) && proofPQN.verifyStructure()
+	pP.setName("p")
+	pQ.setName("q")
+	pPp.setName("pprime")
+	pQp.setName("qprime")
+	proofPQN.setName("pqnrel")
+	vbases := zkproof.NewBaseMerge(&g, &pP, &pQ, &pPp, &pQp)
+	vproofs := zkproof.NewProofMerge(&pP, &pQ, &pPp, &pQp, &proofPQN)
+	var vlist []*big.Int
+	vlist = s.pprime.commitmentsFromProof(g, vlist, challenge, pPp)
+	vlist = s.qprime.commitmentsFromProof(g, vlist, challenge, pQp)
+	vlist = s.p.commitmentsFromProof(g, vlist, challenge, pP)
+	vlist = s.q.commitmentsFromProof(g, vlist, challenge, pQ)
+	vlist = append(vlist, g.P)
+	vlist = append(vlist, s.n)
+	vlist = s.pPprimeRel.CommitmentsFromProof(g, vlist, challenge, &vbases, &vproofs)
+	vlist = s.qQprimeRel.CommitmentsFromProof(g, vlist, challenge, &vbases, &vproofs)
+	vlist = s.pQNRel.CommitmentsFromProof(g, vlist, challenge, &vbases, &vproofs)
+	accepted := structureOK && vpCommitmentsAcceptable(g, vlist) && challenge.Cmp(common.HashCommit(vlist, false)) == 0
+	vpAssert("a core proof with degenerate commitments to p and q is rejected", !accepted)
+}
+
+// vpCommitmentsAcceptable: the check VerifyProof makes on the reconstructed commitment list.
+func vpCommitmentsAcceptable(g zkproof.Group, list []*big.Int) bool { return !hasVanishingCommitment(list) }
